@@ -320,6 +320,29 @@ def _eval_io(case):
             res.append(("split", c0, {v.id: I.comps(v.pose) for v in I.graph_vertices(g)}, IO_IDMAPS[0]))
         except Exception as ex:
             msgs.append("loading the graph whose edges are written as two identical half-information lines raised %s" % type(ex).__name__)
+        # quaternion signs / whole turns seen through the loader: the same graph written with negated quaternions (every vertex and
+        # measurement, alternating ones) or with SE(2) angles shifted by whole turns
+        import copy as _copy
+
+        for pat in ("all", "odd", "meas_only"):
+            sp2 = _copy.deepcopy(spec)
+            for k, v in enumerate(sp2["vertices"]):
+                if pat == "all" or (pat == "odd" and k % 2 == 1):
+                    v["pose"] = v["pose"][:3] + [-x for x in v["pose"][3:]] if kind == "SE3" else v["pose"][:2] + [v["pose"][2] + 2 * math.pi * (1 + k % 3)]
+            for k, e in enumerate(sp2["edges"]):
+                if pat in ("all", "meas_only") or k % 2 == 1:
+                    e["z"] = e["z"][:3] + [-x for x in e["z"][3:]] if kind == "SE3" else e["z"][:2] + [e["z"][2] - 2 * math.pi * (1 + k % 2)]
+            path = os.path.join(tmp, "rep_%s.g2o" % pat)
+            with open(path, "w") as f:
+                f.write(_render_g2o(sp2, IO_IDMAPS[0]))
+            try:
+                g = I.Graph.from_g2o(path)
+                with np.errstate(all="ignore"):
+                    c0 = float(g.calc_chi2())
+                GB.optimize(g, tol=0.0, max_iter=2, fix_first_pose=True)
+                res.append(("negated quaternions / shifted angles (%s)" % pat, c0, {v.id: I.comps(v.pose) for v in I.graph_vertices(g)}, IO_IDMAPS[0]))
+            except Exception as ex:
+                msgs.append("loading the graph written with negated quaternions / shifted angles (%s) raised %s" % (pat, type(ex).__name__))
         if res:
             _, cA, pA, mA = res[0]
             for mi, c0, pp, idmap in res[1:]:
